@@ -24,7 +24,15 @@
      && (c)->pms[0] < 8 && (c)->pms[1] < 8 && (c)->pms[2] < 8 && (c)->pms[3] < 8 && (c)->pms[4] < 8 && (c)->pms[5] < 8 \
      && (c)->ams[0] < 4 && (c)->ams[1] < 4 && (c)->ams[2] < 4 && (c)->ams[3] < 4 && (c)->ams[4] < 4 && (c)->ams[5] < 4)
 
+/* the chip object: a fresh object of the chip's size, or (NUKED_TYPED_ENV, the two functions that index the 2048-entry write
+ * queue at a symbolic position) one typed object of the harness - DFCC starts with every static object nondeterministic, and
+ * byte-extraction from an untyped fresh object at a symbolic index does not finish (DESIGN.md A.4) */
+#ifdef NUKED_TYPED_ENV
+extern ym3438_t g_nuked_chip;
+#define NUKED_CHIP(c) ((c) == &g_nuked_chip)
+#else
 #define NUKED_CHIP(c) (__CPROVER_is_fresh(c, sizeof(ym3438_t)))
+#endif
 
 void OPN2_Clock(ym3438_t *chip, Bit16s *buffer)
 __CPROVER_requires(NUKED_CHIP(chip) && __CPROVER_is_fresh(buffer, 2 * sizeof(Bit16s)))
